@@ -1,6 +1,8 @@
 /-
 C19 — negation witnesses: concrete inputs on which a *full-strength* statement is false of the model (and, replayed
-by the harness, of the implementation).  Each is listed in known_findings.txt.
+by the harness, of the implementation); each is listed in known_findings.txt as a `finding:`.  For the findings that
+were repaired in /repo (`fixed:` lines) the witness became a `…_regression` theorem stating the now-correct behaviour
+on the same input.
 -/
 import WpModel.Model.PdfZoom
 import WpModel.Model.ImageCache
@@ -12,12 +14,13 @@ open Wp Wp.CopyPages Wp.PdfZoom
 
 def page20 : Page := ⟨100, 100, ⟨20, 20, 20, 20⟩, [], [], []⟩
 
-/-- `@page { size: 100px; bleed: 20px }`: the bleed is 15 pt at zoom 1 and 30 pt at zoom 2, both above the 10 pt cap
-of `generate_pdf`, so the BleedBox is `[-10 -10 85 85]` at zoom 1 and `[-10 -10 160 160]` at zoom 2 — not
-`2 × [-10 -10 85 85]`.  (The unrestricted `zoom_linear` for the BleedBox is therefore false; MediaBox and TrimBox do
-scale.) -/
-theorem bleedbox_cap_not_linear :
-    bleedBox (scale 1) page20 = ⟨-10, -10, 85, 85⟩ ∧ bleedBox (scale 2) page20 = ⟨-10, -10, 160, 160⟩ ∧
+/-- Regression for the repaired `bleedbox-cap-not-zoomed` (d924a7c; this was the witness `bleedbox_cap_not_linear`
+refuting `zoom_linear` for the BleedBox).  `@page { size: 100px; bleed: 20px }`: the bleed is 15 pt at zoom 1 and 30 pt
+at zoom 2, both above the cap (10 pt × zoom); the BleedBox is `[-10 -10 85 85]` at zoom 1 and now
+`[-20 -20 170 170]` at zoom 2 — exactly `2 ×` (it was `[-10 -10 160 160]`).  The general statement is
+`C19.bleedBox_zoom` / `C19.zoom_linear`. -/
+theorem bleedbox_cap_linear_regression :
+    bleedBox 1 page20 = ⟨-10, -10, 85, 85⟩ ∧ bleedBox 2 page20 = ⟨-20, -20, 170, 170⟩ ∧
     mediaBox (scale 2) page20 = ⟨-30, -30, 180, 180⟩ ∧ trimBox (scale 2) page20 = ⟨0, 0, 150, 150⟩ := by
   decide +kernel
 
@@ -28,15 +31,16 @@ def jpegFetcher : Fetcher := fun _ => .ok (some "image/jpeg") none ⟨1, false, 
 def lowQuality : Opts := ⟨false, some 5, none⟩
 def defaults : Opts := ⟨false, none, none⟩
 
-/-- The image key does not contain the options the stored bytes depend on: a cache filled by a render with
-`jpeg_quality=5` makes a later render with default options embed the quality-5 re-encoding, whereas on a cold cache
-it embeds the original JPEG bytes.  (`cache_transparent` is therefore stated for fixed options.) -/
-theorem cache_ignores_options :
+/-- Regression for the repaired `image-cache-ignores-options` (bca20a5; this was the witness `cache_ignores_options`).
+The image key now contains the options the stored bytes depend on: a cache filled by a render with `jpeg_quality=5`
+no longer answers a render with default options — that one fetches again and embeds the original JPEG bytes, exactly
+as on a cold cache.  The general statement is `C19.cache_transparent` (options may change from call to call) and
+`C19.payload_transparent`. -/
+theorem cache_honours_options_regression :
     let warm := (getImage jpegFetcher lowQuality [] "u" "" .none).cache
-    let k := dataKey (imageId (keyStr "u" .none)) none
-    (getImage jpegFetcher defaults warm "u" "" .none).fetched = [] ∧
-    lookup (getImage jpegFetcher defaults warm "u" "" .none).cache k =
-      some (.bytes (.reenc 1 .none .jpeg false (some 5))) ∧
+    let k := dataKey (imageId (keyStr "u" .none defaults)) none
+    (getImage jpegFetcher defaults warm "u" "" .none).fetched = ["u"] ∧
+    lookup (getImage jpegFetcher defaults warm "u" "" .none).cache k = some (.bytes (.orig 1)) ∧
     lookup (getImage jpegFetcher defaults [] "u" "" .none).cache k = some (.bytes (.orig 1)) := by
   decide
 
@@ -45,14 +49,15 @@ end cache
 section state
 open Wp.WriteState Wp.CopyPages
 
-/-- Page 1 links to an anchor `b` that sits on page 2.  Writing the whole document (PDF 1) stores an annotation on
-the link's box; writing then the copy of page 1 alone (PDF 2: `b` is not anchored, `resolve_links` drops the link)
-still tags the box as `Link`, with the annotation object of PDF 1.  Writing the copy first tags nothing.  (The
-unrestricted `write_tags_current` is therefore false: known finding `stale-link-annotation`.) -/
-theorem stale_annotation_after_full_write :
+/-- Regression for the repaired `stale-link-annotation` (974ea74; this was the witness
+`stale_annotation_after_full_write`).  Page 1 links to an anchor `b` that sits on page 2.  Writing the whole document
+(PDF 1) stores an annotation on the link's box; writing then the copy of page 1 alone (PDF 2: `b` is not anchored,
+`resolve_links` drops the link) no longer tags the box: `generate_pdf` resets the boxes of its page list first.
+The general statement is `C19.write_tags_current` / `C19.write_history_independent`. -/
+theorem no_stale_annotation_regression :
     let page1 := [(⟨7, .internal, "b"⟩ : BoxLink)]
     let full := write 1 ["b"] page1 []
-    (write 2 [] page1 full.2).1 = [(7, 1)] ∧ (write 2 [] page1 []).1 = [] := by decide
+    full.1 = [(7, 1)] ∧ (write 2 [] page1 full.2).1 = [] ∧ (write 2 [] page1 []).1 = [] := by decide
 
 /-- An image of 64 × 32 embedded twice at 32 × 16 (`dpi`): the second call re-encodes the thumbnail stored by the
 first (generation 2 instead of 1); used afterwards at ratio 1 the object declares 64 × 32 with 32 × 16 data.  A fresh
